@@ -134,6 +134,8 @@ CATALOGUE: list[tuple] = [
     ("S-pairs-flatten-explicit-stack", ["C06"], PAIRS, "        for pair in self._pairs:\n            yield from _flatten(pair)", "        stack = list(reversed(self._pairs))\n        while stack:\n            node = stack.pop()\n            yield node\n            stack.extend(reversed(node.children))", "silent", ""),
     ("optimizer-rewrites-in-place", ["C15", "C02"], OPT, "                if expr is not rule.expression:\n                    # The caller may share its Rule objects with other parsers:\n                    # store a rewritten copy instead of rewriting in place.\n                    rewritten = copy.copy(rule)\n                    rewritten.expression = expr\n                    rules[name] = rewritten\n", "                rules[name].expression = expr\n", "fire", "Optimizer.optimize"),
     ("inline-trivia-rule", ["C02"], "src/pest/grammar/optimizers/inliners.py", "            and rule.modifier == SILENT\n            and expr.value not in (\"WHITESPACE\", \"COMMENT\")\n", "            and rule.modifier & SILENT\n", "fire", "inline_silent_rules"),
+    ("restore-keeps-taken-tag", ["C08", "C05", "C09"], STATE, "        self.tag_stack[:] = self._tag_history.pop()\n", "        self._tag_history.pop()\n", "fire", ""),
+    ("S-tag-history-as-lists", ["C08", "C05", "C09", "C06"], STATE, "        self._tag_history.append(tuple(self.tag_stack))\n", "        self._tag_history.append(list(self.tag_stack))\n", "silent", ""),
     ("squash-version1", ["C02"], CHOICE, "            self._compiled = re.compile(self.build_optimized_pattern())", "            self._compiled = re.compile(self.build_optimized_pattern(), re.VERSION1)", "silent", ""),  # since 352c5c8 no emitted pattern folds case through a flag: VERSION1 changes nothing the builder can emit (O12 on the engine decides; O13 is a second opinion)
     ("cistring-unicode-folding", ["C12", "C02"], TERMINALS, "        self._re = re.compile(re.escape(value), re.I | re.A)", "        self._re = re.compile(re.escape(value), re.I)", "fire", ""),
     ("squash-class-nonascii-case", ["C02", "C12"], CHOICE, "                if val.isascii():\n                    char_class_parts.append(val.upper())\n                    char_class_parts.append(val.lower())\n                else:\n                    char_class_parts.append(val)", "                char_class_parts.append(val.upper())\n                char_class_parts.append(val.lower())", "fire", ""),
